@@ -292,10 +292,64 @@ func ruleR7(p *Prog, r *Report) {
 						good = true
 					}
 				}
-				r.Decide(good, R, cons, p.InstrPos(ret), "returned storable is the result of uninlineStorableIfNeeded",
+				if !good {
+					// the element was overwritten with itself: nothing was detached (identity test between the
+					// stored element and the caller's value on a dominating true edge)
+					if b, edge := sameContainerTest(f, v); b != nil && edge >= 0 && edgeDominates(b, edge, ret.Block()) {
+						good = true
+					}
+				}
+				r.Decide(good, R, cons, p.InstrPos(ret), "returned storable is the result of uninlineStorableIfNeeded (or the element was overwritten with itself)",
 					"a storable detached from the container is returned without uninlineStorableIfNeeded: an inlined child would exist in no register and later changes to it would be lost")
 			}
 		}
+	}
+	// an element overwritten with the very container it already holds must not be uninlined: the "old" storable
+	// is the slab that was just stored as the new element
+	for _, f := range p.TopFuncs() {
+		if !isHandleType(recvName(f)) || !isExportedAPI(f) {
+			continue
+		}
+		hasValue := false
+		for _, prm := range f.Params[1:] {
+			if typeName(prm.Type()) == "Value" {
+				hasValue = true
+			}
+		}
+		if !hasValue {
+			continue
+		}
+		eachInstr(f, func(in ssa.Instruction) {
+			c, ok := in.(*ssa.Call)
+			if !ok || c.Call.StaticCallee() == nil || c.Call.StaticCallee().Name() != "uninlineStorableIfNeeded" || len(c.Call.Args) < 2 {
+				return
+			}
+			x := c.Call.Args[1]
+			// only where the storable comes out of an operation that stored the caller's value (Set), not of a removal
+			stores := false
+			if ex, ok := canon(x).(*ssa.Extract); ok {
+				if src, ok := ex.Tuple.(*ssa.Call); ok {
+					for _, g := range p.Callees(src) {
+						eachInstr(g, func(y ssa.Instruction) {
+							if cc, ok := y.(ssa.CallInstruction); ok && cc.Common().IsInvoke() {
+								nm := cc.Common().Method.Name()
+								tn := typeName(cc.Common().Value.Type())
+								if (nm == "Set" || nm == "Insert") && (tn == "ArraySlab" || tn == "MapSlab") {
+									stores = true
+								}
+							}
+						})
+					}
+				}
+			}
+			if !stores {
+				return
+			}
+			n++
+			b, edge := sameContainerTest(f, x)
+			good := b != nil && edge >= 0 && edgeDominates(b, 1-edge, in.Block())
+			r.Decide(good, R, "uninline-not-self:"+p.Name(f), p.InstrPos(in), "the overwritten storable is uninlined only after it was told apart from the caller's value", "the overwritten storable is uninlined without checking that it is not the caller's value itself: overwriting an inlined child with itself un-inlines the slab object that was just stored as the new element (parent size wrong, two roots, unreadable register)")
+		})
 	}
 	// uninlineStorableIfNeeded itself: every in-package slab kind that can be inlined is uninlined
 	if u := p.PkgFunc("uninlineStorableIfNeeded"); u != nil {
@@ -1052,3 +1106,37 @@ func ruleN4(p *Prog, r *Report) {
 
 // canonRet: look through the defer/recover spill of a return operand.
 func canonRet(v ssa.Value) ssa.Value { return stripTrivial(v) }
+
+// sameContainerTest finds a branch on a call that receives both the storable x and a Value parameter of f
+// (an identity test between the stored element and the caller's value). It returns the block and the index
+// of the successor taken when the test is true.
+func sameContainerTest(f *ssa.Function, x ssa.Value) (*ssa.BasicBlock, int) {
+	for _, b := range f.Blocks {
+		ifi, ok := b.Instrs[len(b.Instrs)-1].(*ssa.If)
+		if !ok {
+			continue
+		}
+		cond := ifi.Cond
+		trueEdge := 0
+		if u, ok := cond.(*ssa.UnOp); ok && u.Op == token.NOT {
+			cond, trueEdge = u.X, 1
+		}
+		c, ok := canon(cond).(*ssa.Call)
+		if !ok {
+			continue
+		}
+		hasX, hasV := false, false
+		for _, a := range c.Call.Args {
+			if sameValue(a, x) {
+				hasX = true
+			}
+			if prm, ok := canon(a).(*ssa.Parameter); ok && typeName(prm.Type()) == "Value" {
+				hasV = true
+			}
+		}
+		if hasX && hasV {
+			return b, trueEdge
+		}
+	}
+	return nil, -1
+}
